@@ -321,6 +321,7 @@ def check(case):
                     why = []
                     if cfg["default_pulse_ms"] == "var":
                         m.variables.set_machine_var("c08_pulse_ms", op[1])
+                        rig.advance(0.001)      # the template's subscription re-evaluates on the next loop iterations
                         lim.default_pulse_ms = op[1]
                         classes.add("template-default-changed")
                 elif k == "advance":
